@@ -66,6 +66,7 @@ type Sched struct {
 	DaemonPanics []string
 	MaxThreads   int
 	LogOn        bool
+	daemonOnly   int
 	// virtual time
 	clock  rtime.Time
 	timers []*vtimer
@@ -134,13 +135,15 @@ func ChooseFree(n int) int {
 func (s *Sched) readyList(cur *Thread) ([]*Thread, bool) {
 	var l []*Thread
 	curReady := false
-	if cur != nil && !cur.done && (cur.ready == nil || cur.ready()) {
+	// a running environment (daemon) thread never continues by default: control returns to the program first, otherwise
+	// a clock with a periodic timer would spin forever on the default schedule
+	if cur != nil && !cur.daemon && !cur.done && (cur.ready == nil || cur.ready()) {
 		l = append(l, cur)
 		curReady = true
 	}
 	for pass := 0; pass < 2; pass++ { // daemons (environment threads) are offered last
 		for _, t := range s.threads {
-			if t == cur || t.done || t.daemon != (pass == 1) {
+			if (t == cur && curReady) || t.done || t.daemon != (pass == 1) {
 				continue
 			}
 			if t.ready == nil || t.ready() {
@@ -164,6 +167,22 @@ func (s *Sched) yield(t *Thread) {
 	}
 	s.pollForeign()
 	l, curReady := s.readyList(t)
+	// environment threads (clock with a periodic timer) can stay enabled forever: if ONLY daemons have been runnable for a
+	// long stretch while some non-daemon thread is unfinished, nothing can release it any more => deadlock, not horizon
+	onlyDaemons := len(l) > 0
+	for _, x := range l {
+		if !x.daemon {
+			onlyDaemons = false
+		}
+	}
+	if onlyDaemons {
+		s.daemonOnly++
+	} else {
+		s.daemonOnly = 0
+	}
+	if s.daemonOnly > 3000 {
+		l = nil
+	}
 	if len(l) == 0 {
 		for _, x := range s.threads {
 			if !x.done && !x.daemon {
